@@ -1,19 +1,28 @@
 #!/usr/bin/env python3
-"""Replay a recorded counterexample against the real double build: python3-vt tools/replay.py replay/<id>/<case>.json"""
-import sys, os, json, subprocess, tempfile
+"""Replay a recorded counterexample against the real build: python3-vt tools/replay.py replay/<id>/<case>.json
+EXACT/outcome records: re-run the double (or debug) harness binary with the recorded inputs; TRUNC/COND: same, comparing
+with the recorded 60-digit reference; C17/C19/C07-irx: re-run the recorded command; C14: the CBMC skeleton with --trace."""
+import sys, os, json, subprocess, tempfile, re
 sys.path.insert(0, os.path.dirname(os.path.dirname(os.path.abspath(__file__))))
 rec = json.load(open(sys.argv[1]))
-print(json.dumps({k: rec[k] for k in ('property', 'key', 'inputs', 'model_lhs', 'model_rhs') if k in rec}, indent=1))
+print(json.dumps({k: rec[k] for k in ('property', 'key', 'claim', 'inputs', 'mode') if k in rec}, indent=1))
 rp = rec.get('replay') or {}
+if rp.get('cmd') and not rp.get('binary'):
+    print('$', rp['cmd']); r = subprocess.run(rp['cmd'], shell=True, capture_output=True, text=True); print(r.stdout[-2000:], r.stderr[-2000:]); sys.exit(0)
+if rec.get('skeleton'):
+    print('$ cbmc', rec['skeleton'], '--unwind 3 --no-unwinding-assertions --trace --property', rec.get('cbmc_property'))
+    r = subprocess.run(['cbmc', rec['skeleton'], '--unwind', '3', '--no-unwinding-assertions', '--trace', '--property', rec.get('cbmc_property', '')], capture_output=True, text=True); print(r.stdout[-3000:]); sys.exit(0)
 b = rp.get('binary')
-if b and os.path.exists(b):
+if b and os.path.exists(b) and rec.get('entry'):
     with tempfile.NamedTemporaryFile('w', suffix='.txt', delete=False) as f:
-        for k, v in rec['inputs'].items(): f.write('%s:%s %s\n' % (rec['entry'], k, float(v).hex()))
-    import re
+        for k, v in (rec.get('inputs') or {}).items(): f.write('%s:%s %s\n' % (rec['entry'], k, float(v).hex()))
     out = subprocess.run([b, '/dev/stdout', re.escape(rec['entry']), '--input', f.name], capture_output=True, text=True).stdout
     for line in out.splitlines():
         p = line.split(' ')
-        if p[0] in ('EQ', 'LE', 'LT') and p[1] == rec['claim']:
+        if p[0] == 'PATH': print('outcome:', ' '.join(p[2:]))
+        if p[0] in ('EQ', 'LE', 'LT', 'AP') and p[1] == rec.get('claim'):
             print('double build: lhs=%r rhs=%r' % (float.fromhex(p[2]), float.fromhex(p[3])))
+        if p[0] == 'OUT' and rec.get('claim', '').startswith(p[1] + '@'):
+            print('double build: %s = %r   (60-digit reference %r)' % (p[1], float.fromhex(p[2]), rec.get('reference_60_digits')))
 else:
-    print('replay binary not present; re-run the check to rebuild it. recorded result:', rp)
+    print('replay binary not present (re-run the check to rebuild it); recorded result:', json.dumps(rp)[:800])
